@@ -33,6 +33,7 @@ namespace json = llvm::json;
 
 static llvm::cl::OptionCategory Cat("xvfacts");
 static llvm::cl::opt<std::string> OutDir("o", llvm::cl::desc("output directory"), llvm::cl::cat(Cat));
+static llvm::cl::list<std::string> Maps("map", llvm::cl::desc("real=replacement: analyse <replacement>'s content in place of file <real>"), llvm::cl::cat(Cat));
 static llvm::cl::opt<std::string> Root("root", llvm::cl::desc("repository root prefix"), llvm::cl::init("/repo/"), llvm::cl::cat(Cat));
 
 static std::string usrOf(const Decl *D) {
@@ -589,5 +590,17 @@ int main(int argc, const char **argv) {
   auto E = CommonOptionsParser::create(argc, argv, Cat);
   if (!E) { llvm::errs() << toString(E.takeError()); return 1; }
   ClangTool T(E->getCompilations(), E->getSourcePathList());
+  std::vector<std::unique_ptr<llvm::MemoryBuffer>> keep;
+  std::vector<std::unique_ptr<std::string>> keepPaths;  // mapVirtualFile stores StringRefs
+  if (getenv("XV_DEBUG")) llvm::errs() << "maps: " << Maps.size() << "\n";
+  for (auto &m : Maps) {
+    auto pos = m.find('=');
+    if (pos == std::string::npos) continue;
+    auto buf = llvm::MemoryBuffer::getFile(m.substr(pos + 1));
+    if (!buf) { llvm::errs() << "cannot read " << m.substr(pos + 1) << "\n"; return 1; }
+    keep.push_back(std::move(*buf));
+    keepPaths.push_back(std::make_unique<std::string>(m.substr(0, pos)));
+    T.mapVirtualFile(*keepPaths.back(), keep.back()->getBuffer());
+  }
   return T.run(newFrontendActionFactory<Act>().get());
 }
